@@ -415,6 +415,36 @@ fn cmd_parse() {
     }
 }
 
+
+/// An evaluator that behaves exactly like SimpleEvaluator but, on its K-th call, either clears the
+/// search's running flag (a stop arriving at that leaf) or sleeps past the game-clock budget (the clock
+/// running out at that leaf), and records how many cache writes had been observed by then.
+#[derive(Clone)]
+struct CutEval {
+    calls: std::sync::Arc<std::sync::atomic::AtomicU64>,
+    k: u64,
+    sleep_ms: u64,
+    flag: Option<std::sync::Arc<std::sync::atomic::AtomicBool>>,
+    cut_len: std::sync::Arc<std::sync::atomic::AtomicI64>,
+}
+impl Evaluator for CutEval {
+    fn evaluate(&self, board: &mut Board) -> crate::search::Score {
+        use std::sync::atomic::Ordering;
+        let n = self.calls.fetch_add(1, Ordering::SeqCst) + 1;
+        if n == self.k {
+            let len = crate::search::verif::TRACE.lock().unwrap().as_ref().map_or(0, |v| v.len()) as i64;
+            self.cut_len.store(len, Ordering::SeqCst);
+            if let Some(f) = &self.flag {
+                f.store(false, Ordering::SeqCst);
+            }
+            if self.sleep_ms > 0 {
+                std::thread::sleep(std::time::Duration::from_millis(self.sleep_ms));
+            }
+        }
+        SimpleEvaluator.evaluate(board)
+    }
+}
+
 /// search: stdin lines "FEN | moves | spec;spec;..." with spec = d<depth>[n<nodes>][x] (x = cache
 /// switched off).  The cache is emptied at the start of every line, not between the specs of a line.
 /// Output: the engine's own info/bestmove lines between "BEGIN k" and "END k", plus one
@@ -459,17 +489,26 @@ fn cmd_search() {
             let mut nodes: Option<u64> = None;
             let mut limit_depth = false;
             let mut off = false;
+            let mut stop_at: Option<u64> = None;
+            let mut clock_at: Option<u64> = None;
+            let mut clocks: Option<Vec<u128>> = None;
             let mut cur = String::new();
             let mut mode = ' ';
-            let flush = |mode: char, cur: &str, depth: &mut Option<u8>, nodes: &mut Option<u64>| {
+            let mut flush = |mode: char, cur: &str, depth: &mut Option<u8>, nodes: &mut Option<u64>| {
                 if mode == 'd' {
                     *depth = cur.parse().ok();
                 } else if mode == 'n' {
                     *nodes = cur.parse().ok();
+                } else if mode == 's' {
+                    stop_at = cur.parse().ok();
+                } else if mode == 'c' {
+                    clock_at = cur.parse().ok();
+                } else if mode == 't' {
+                    clocks = Some(cur.split(':').filter_map(|x| x.parse().ok()).collect());
                 }
             };
             for ch in spec.chars() {
-                if ch.is_ascii_digit() {
+                if ch.is_ascii_digit() || (mode == 't' && ch == ':') {
                     cur.push(ch);
                 } else {
                     flush(mode, &cur, &mut depth, &mut nodes);
@@ -490,10 +529,32 @@ fn cmd_search() {
             if limit_depth {
                 limits = limits.depth(depth);
             }
+            if clock_at.is_some() {
+                limits = limits.white_time(Some(2000)).black_time(Some(2000));
+            }
+            if let Some(c) = &clocks {
+                if c.len() == 4 {
+                    limits = limits
+                        .white_time(Some(c[0]))
+                        .black_time(Some(c[1]))
+                        .white_increment(Some(c[2]))
+                        .black_increment(Some(c[3]));
+                }
+            }
             let mut search = Search::new(&board, Some(limits));
+            let cut_len = std::sync::Arc::new(std::sync::atomic::AtomicI64::new(-1));
+            let ev = CutEval {
+                calls: std::sync::Arc::new(std::sync::atomic::AtomicU64::new(0)),
+                k: stop_at.or(clock_at).unwrap_or(0),
+                sleep_ms: if clock_at.is_some() { 160 } else { 0 },
+                flag: if stop_at.is_some() { Some(search.running.clone()) } else { None },
+                cut_len: cut_len.clone(),
+            };
             let r = catch_unwind(AssertUnwindSafe(|| {
-                search.search(&SimpleEvaluator, depth);
+                search.search(&ev, depth);
             }));
+            let timer = search.verif_timer().map_or(-1i128, |x| x as i128);
+            let cut = cut_len.load(std::sync::atomic::Ordering::SeqCst);
             let trace = crate::search::verif::TRACE.lock().unwrap().take().unwrap_or_default();
             crate::search::verif::CACHE_OFF.store(false, std::sync::atomic::Ordering::Relaxed);
             let (bm, bs, n, sd) = search.verif_result();
@@ -514,9 +575,11 @@ fn cmd_search() {
                 })
                 .collect();
             println!(
-                "RESULT {{\"panic\":{},\"spec\":\"{}\",\"best\":{},\"score\":{},\"nodes\":{},\"seldepth\":{},\"writes\":[{}]}}",
+                "RESULT {{\"panic\":{},\"spec\":\"{}\",\"timer\":{},\"cut\":{},\"best\":{},\"score\":{},\"nodes\":{},\"seldepth\":{},\"writes\":[{}]}}",
                 r.is_err(),
                 spec,
+                timer,
+                cut,
                 bm.map_or("null".to_string(), |p| enc_ply(&p)),
                 bs.map_or("null".to_string(), |x| x.to_string()),
                 n,
@@ -623,6 +686,31 @@ fn cmd_randfens(args: &[String]) {
     }
 }
 
+
+/// tofen: stdin lines "FEN | moves" -> FEN of the position after the moves (or PANIC)
+fn cmd_tofen() {
+    let mut o = out();
+    for line in std::io::stdin().lock().lines() {
+        let line = line.unwrap();
+        let (fen, moves) = match line.split_once('|') {
+            Some((f, m)) => (f.trim().to_string(), m.trim().to_string()),
+            None => (line.trim().to_string(), String::new()),
+        };
+        let r = catch_unwind(AssertUnwindSafe(|| {
+            let mut b = Board::from_fen(&fen);
+            for m in moves.split_whitespace() {
+                let p = b.find_move(m).expect("illegal move");
+                b.make_move(p);
+            }
+            to_fen(&b)
+        }));
+        match r {
+            Ok(s) => writeln!(o, "{s}").unwrap(),
+            Err(_) => writeln!(o, "PANIC").unwrap(),
+        }
+    }
+}
+
 pub fn main(args: &[String]) {
     // keep panics quiet: they are reported as outcomes
     std::panic::set_hook(Box::new(|_| {}));
@@ -633,6 +721,7 @@ pub fn main(args: &[String]) {
         "occ" => cmd_occ(),
         "walk" => cmd_walk(&args[1..]),
         "fen" => cmd_fen(),
+        "tofen" => cmd_tofen(),
         "randfens" => cmd_randfens(&args[1..]),
         "eval" => cmd_eval(),
         "parse" => cmd_parse(),
